@@ -106,7 +106,7 @@ def gen_history(rng, nops, uid0=0, write_only=False):
     return ops
 
 
-STORM_KINDS = ["delete", "replace", "replace_last", "insert", "delete_missing", "upsert1", "upsert3", "singles"]
+STORM_KINDS = ["delete", "replace", "replace_last", "insert", "delete_missing", "upsert1", "upsert3", "singles", "big-bucket"]
 
 
 def storm(rng, kind):
@@ -114,6 +114,19 @@ def storm(rng, kind):
     (or the age rule) can bound what a crash loses."""
     ops = gen_history(rng, rng.randrange(3, 10))
     n0 = 10**6
+    if kind == "big-bucket":
+        # bucket-level operations on a bucket with thousands of events (any batching inside them crosses its limits)
+        ops.append(dict(op="create_bucket", b="b0"))
+        uid = n0
+        for _ in range(rng.choice([4, 5, 9, 13])):
+            ops.append(dict(op="bulk", b="b0", evs=[dict(ts=10**15 + (uid + i) * 1000, dur=1000, data={"uid": uid + i}) for i in range(250)]))
+            uid += 250
+        ops.append(dict(op="insert", b="b1", ev=dict(ts=10**15, dur=0, data={"uid": uid + 1})))
+        ops.append(dict(op="update_bucket", b="b0", name="big", data={"big": True}))
+        ops.append(dict(op="insert", b="b0", ev=dict(ts=10**15, dur=0, data={"uid": uid + 2})))
+        ops.append(dict(op="delete_bucket", b="b0"))
+        ops.append(dict(op="insert", b="b1", ev=dict(ts=10**15, dur=0, data={"uid": uid + 3})))
+        return ops
     ops.append(dict(op="create_bucket", b="b0"))
     ops.append(dict(op="bulk", b="b0", evs=[dict(ts=10**15 + i * 1000, dur=1000, data={"uid": n0 + i}) for i in range(250)]))
     for i in range(rng.randrange(70, 200)):
